@@ -9,7 +9,7 @@ import shutil
 import struct
 import subprocess
 import time
-from .. import spec as S, gen as G, ref, build
+from .. import spec as S, gen as G, ref, build, fuzz
 from ..spec import INT, UINT, HEX, BHEX, STR, RW, RO, WO, OK, DATA_OK, DATA_NEXT, NEXT, LIST
 from ..common import Result
 
@@ -143,107 +143,16 @@ def run(case, W):
 
 # ------------------------------------------------------------------ libFuzzer campaign
 
-def fuzz_bin(qcap):
-    def cmd(repo, world):
-        return ["clang", "-std=gnu99", "-g", "-O1", "-fsanitize=fuzzer,address,undefined", "-fno-sanitize-recover=undefined", "-fno-omit-frame-pointer",
-                "-DCAT_UNSOLICITED_CMD_BUFFER_SIZE=%d" % qcap, "-I" + os.path.join(repo, "src"), "-I" + world,
-                os.path.join(world, "fuzz_c03.c"), os.path.join(world, "shim.c"), os.path.join(repo, "src", "cat.c")]
-    return build.ensure_custom("fuzz_c03_q%d" % qcap, cmd)
-
-
 def prebuild(tier):
-    from concurrent.futures import ThreadPoolExecutor
-    with ThreadPoolExecutor(max_workers=4) as ex:
-        list(ex.map(fuzz_bin, BUDGET[tier]["fuzz_caps"]))
-
-
-VERIF = build.VERIF
-CORPUS = os.path.join(VERIF, "corpus", "C03")
-DICT = os.path.join(VERIF, "dict", "at.dict")
-
-
-def _stats(path):
-    ex = nt = 0
-    hashes = set()
-    try:
-        with open(path, "rb") as f:
-            head = f.readline().split()
-            ex, nt = int(head[1]), int(head[3])
-            data = f.read()
-            for i in range(0, len(data) - 7, 8):
-                hashes.add(struct.unpack_from("<Q", data, i)[0])
-    except Exception:
-        pass
-    return ex, nt, hashes
+    fuzz.prebuild("c03", BUDGET[tier]["fuzz_caps"])
 
 
 def campaign(tier, seed, nworkers):
     conf = BUDGET[tier]
-    caps = conf["fuzz_caps"]
-    work = os.path.join(VERIF, "work", "C03", "run%d" % os.getpid())
-    shutil.rmtree(work, ignore_errors=True)
-    os.makedirs(work)
-    procs = []
-    t0 = time.time()
-    for w in range(nworkers):
-        q = caps[w % len(caps)]
-        exe = fuzz_bin(q)
-        cdir = os.path.join(work, "c%d" % w)
-        adir = os.path.join(work, "a%d" % w)
-        os.makedirs(cdir)
-        os.makedirs(adir)
-        env = dict(os.environ, FUZZ_STATS=os.path.join(work, "stats%d" % w), ASAN_OPTIONS="detect_leaks=0:abort_on_error=0", UBSAN_OPTIONS="print_stacktrace=1")
-        cmd = [exe, cdir] + ([CORPUS] if os.path.isdir(CORPUS) and os.listdir(CORPUS) else []) + [
-            "-max_total_time=%d" % conf["fuzz_s"], "-seed=%d" % ((seed * 1000003 + w * 7919) % (2 ** 31 - 1) + 1), "-max_len=1200", "-len_control=50",
-            "-artifact_prefix=" + adir + "/", "-print_final_stats=1", "-timeout=20", "-rss_limit_mb=3000", "-verbosity=0"]
-        if os.path.exists(DICT):
-            cmd.append("-dict=" + DICT)
-        log = open(os.path.join(work, "log%d" % w), "wb")
-        procs.append((w, q, subprocess.Popen(cmd, stdout=log, stderr=subprocess.STDOUT, env=env), adir))
-    failures = []
-    execs = 0
-    ntsum = 0
-    distinct = 0
-    for w, q, p, adir in procs:
-        p.wait()
-        ex, nt, hs = _stats(os.path.join(work, "stats%d" % w))
-        execs += ex
-        ntsum += nt
-        distinct += len(hs)
-        for art in sorted(glob.glob(os.path.join(adir, "crash-*")) + glob.glob(os.path.join(adir, "leak-*"))):
-            dst_dir = os.path.join(VERIF, "replays", "C03")
-            os.makedirs(dst_dir, exist_ok=True)
-            dst = os.path.join(dst_dir, "fail-q%d-%s" % (q, os.path.basename(art)))
-            shutil.copy(art, dst)
-            tail = open(os.path.join(work, "log%d" % w), "rb").read()[-2500:].decode(errors="replace")
-            sig = "fuzz-crash"
-            for key in ("C03 ORACLE VIOLATION", "AddressSanitizer", "runtime error", "Assertion"):
-                if key in tail:
-                    sig = "fuzz-" + key.split()[0].lower()
-                    break
-            failures.append(dict(case=None, sig=sig, text=tail, artifact=dst))
-    shutil.rmtree(work, ignore_errors=True)
-    return dict(evaluations=execs, failures=failures,
-                extra=dict(fuzz_executions=execs, fuzz_nontrivial_executions=ntsum, fuzz_distinct_nontrivial_inputs=distinct, fuzz_workers=len(procs),
-                           fuzz_seconds_per_worker=conf["fuzz_s"], fuzz_ring_capacities=list(caps), fuzz_wall_s=round(time.time() - t0, 1)),
-                nontrivial_extra=distinct)
+    return fuzz.campaign(ID, "c03", conf["fuzz_caps"], conf["fuzz_s"], seed, nworkers)
 
 
-def replay_artifact(path):
-    """re-run a saved libFuzzer artifact (file name carries the ring capacity)"""
-    base = os.path.basename(path)
-    q = 1
-    if "-q" in base:
-        try:
-            q = int(base.split("-q")[1].split("-")[0])
-        except ValueError:
-            q = 1
-    exe = fuzz_bin(q)
-    env = dict(os.environ, ASAN_OPTIONS="detect_leaks=0:abort_on_error=0")
-    r = subprocess.run([exe, path, "-timeout=60"], capture_output=True, text=True, env=env)
-    if r.returncode != 0:
-        return Result(violation=("fuzz-artifact", (r.stderr or r.stdout)[-2000:]))
-    return Result()
+replay_artifact = fuzz.replay_artifact
 
 
 def minimise(case, W, sig):
